@@ -256,6 +256,20 @@ class Interp:
         raise Unsupported(f"truthiness of {v!r}")
 
     def branch(self, v, st):
+        if isinstance(v, Ref):
+            o = self.hget(st, v)
+            if isinstance(o, HInst):
+                # Python's truth protocol for instances: __bool__ if the class has one, else __len__ () != 0, else always true
+                for name in ("__bool__", "__len__"):
+                    found = self.index.find_method(o.cls, name)
+                    if found:
+                        fn, mod, cls = found
+                        out = []
+                        for k, r, s in self.call_function(fn, mod, cls, [v], {}, st, f"{cls}.{name}"):
+                            if k == "exc":
+                                raise Unsupported(f"{name} raised while testing truthiness")
+                            out += self.split(self.truth_term(r, s), s)
+                        return out
         return self.split(self.truth_term(v, st), st)
 
     # ------------------------------------------------------------------ names
